@@ -448,6 +448,25 @@ void execute_funcs(const Plan& plan) {
     sim::logf("func %u: %zu bytes equal", i, alone.size());
     sim::end_op();
   }
+  // A later function that branches to a label bound inside an earlier one: whatever the Compiler answers (an error is
+  // fine), it must not follow what the register allocator attached to that label while it worked on the earlier function.
+  if (s.target != gen::Target::kA64) {
+    sim::begin_op(Op(), n + 1);
+    apply_knobs(k2, plan.seed + 99);
+    Objects o(0);
+    SIM_CHECK(o.code->init(Environment(gen::arch_of(s.target))) == Error::kOk, "c16:setup", "init failed");
+    x86::Compiler& cc = o.xc;
+    cc.set_error_handler(&o.eh);
+    SIM_CHECK(o.code->attach(&cc) == Error::kOk, "c16:setup", "attach failed");
+    Label shared = cc.new_label();
+    uint32_t filler = uint32_t(3 + (uint64_t(op.a[1]) % 150));
+    { x86::Gp a = cc.new_gp32("a"); FuncNode* f = cc.add_func(FuncSignature::build<int, int>()); if (f) { f->set_arg(0, a); (void)cc.test(a, a); (void)cc.jz(shared); (void)cc.add(a, 1); (void)cc.bind(shared); (void)cc.ret(a); (void)cc.end_func(); } }
+    { x86::Gp b = cc.new_gp32("b"), c = cc.new_gp32("c"); FuncNode* f = cc.add_func(FuncSignature::build<int, int, int>()); if (f) { f->set_arg(0, b); f->set_arg(1, c); for (uint32_t i = 0; i < filler; i++) { (void)cc.add(b, c); (void)cc.xor_(c, b); } (void)cc.test(b, b); (void)cc.jz(shared); (void)cc.ret(b); (void)cc.end_func(); } }
+    Error err = cc.finalize();
+    sim::logf("branch into an earlier function: finalize -> %u", unsigned(err));
+    sim::count(err == Error::kOk ? "c16.probe.cross_function_branch_accepted" : "c16.probe.cross_function_branch_refused");
+    sim::end_op();
+  }
   sim::mark_nontrivial();
   sim::add_steps(n + 1);
   sim::heap::arm(false);
